@@ -440,8 +440,8 @@ class IndentationFeatures(object):
             id000 = np.argmin(np.abs(xin - cp))
             id025 = int(id000 + .25 * (id100 - id000))
             idmin, idmax = min(id025, id100), max(id025, id100)
-            if idmin != idmax:
-                # find zeros
+            if idmax - idmin >= 2:
+                # find zeros (both halves contain at least one point)
                 idcen = idmin + (idmax - idmin) // 2
                 smooth = ndimage.gaussian_filter1d(yin - fit, sigma=11)
                 idzero1 = idmin + np.argmin(np.abs(smooth[idmin:idcen]))
